@@ -1,5 +1,5 @@
 """C18 - interp_axis is per-fibre linear interpolation, exact at the nodes."""
-import copy, itertools, math, warnings
+import copy, itertools, json, math, random, warnings
 from fractions import Fraction
 import numpy as np
 import core, gen
@@ -76,7 +76,11 @@ class C18(Prop):
     id = "C18"
     theorems = ["interpAt_node", "interpAt_left", "interpAt_right", "interpAt_between", "interpAxis_axes", "sortsNodes_exists", "SortsNodes.unique", "interpAxis_spec", "InterpolatesAlong.covers", "InterpolatesAlong.node", "InterpolatesAlong.left_fill",
                 "InterpolatesAlong.right_fill", "InterpolatesAlong.between", "InterpolatesAlong.between_bounds", "interpAt_between_bounds", "interpAxis_order_independent", "interpAxis_empty_axis",
-                "interpAxis_nonnumeric", "interpAxis_bad_axis", "interpAxis_successive", "DSV.interpAxisDs_spec", "DSV.interpAxisDs_interpolates", "interpAxis_order_dependent_with_duplicates"]
+                "interpAxis_nonnumeric", "interpAxis_bad_axis", "interpAxis_successive", "DSV.interpAxisDs_spec", "DSV.interpAxisDs_interpolates", "interpAxis_order_dependent_with_duplicates",
+                "mem_sharedAxes", "sharedAxes_positions", "interpLike_eq_successive", "interpLike_no_shared", "interpLike_one", "interpLike_spec",
+                "interpLike_axes", "interpLike_attrs", "interpLike_first_nonnumeric", "interpLike_two", "interpLike_order_independent",
+                "interpLike_order_dependent_corner", "interpLike_eq_interpAlong", "interpAlong_of_sublist", "DSV.interpLikeDs_spec",
+                "DSV.interpLikeDs_no_shared", "DSV.interpLikeDs_order_is_the_datasets"]
     rule = ("float/int arrays of rank 1-4 with numeric axis labels stored increasing / decreasing / shuffled (power-of-two "
             "gaps and dyadic values so that every float operation is exact), every numeric axis by name, position, negative "
             "position or left out (first axis), new coordinate vectors (sorted or not, ndarray / list / Axis, float or int, "
@@ -84,9 +88,11 @@ class C18(Prop):
             "only right), issorted None / True (True only where the labels are stored increasing), single-label axes, NaN cells, "
             "+inf / -inf cells (one, or two on neighbouring nodes of a fibre) with new coordinates on that node, on its "
             "neighbours and half-way to them; "
-            "interp_like (DimArray or Axes template, one or two shared axes), Dataset.interp_axis (axis by name / position / "
+            "interp_like (DimArray or Axes template, one or two shared axes listed in either order, sometimes an axis the "
+            "array lacks or a string-labelled dimension of the array: TypeError), Dataset.interp_axis (axis by name / position / "
             "negative position, variables partly lacking the axis) and Dataset.interp_like (DimArray / Axes / Dataset "
-            "template) against the per-variable 1-D definition. Non-trivial = axis of at least 2 labels; distinct = canonical JSON")
+            "template) against the per-variable 1-D definition AND against their mirrors (Lib.interpLike, DSV.interpAxisDs, "
+            "DSV.interpLikeDs). Non-trivial = axis of at least 2 labels; distinct = canonical JSON")
     assumptions = ["PARTIAL: floating-point rounding inside np.interp and in the fractional weights is not modelled; the "
                    "primary stream keeps all float operations exact, values compared after rounding to 11 significant digits"]
 
@@ -96,7 +102,8 @@ class C18(Prop):
         d = _s.modules["dimarray.dataset"]
         return {"interp_axis": t.interp_axis, "_interp_internal_maybe_sort": t._interp_internal_maybe_sort,
                 "_interp_internal_get_weights": t._interp_internal_get_weights, "_interp_internal_from_weight": t._interp_internal_from_weight,
-                "interp_like": t.interp_like, "Dataset.interp_axis": d.Dataset.interp_axis}
+                "interp_like": t.interp_like, "Dataset.interp_axis": d.Dataset.interp_axis,
+                "Dataset.interp_like": d.Dataset.interp_like}
 
     def gen(self, rng, tier):
         n = 1000 if tier == "quick" else 24000
@@ -152,6 +159,18 @@ class C18(Prop):
                 c["tmpl"] = rng.choice(["dimarray", "axes", "dataset"])
             if arr["vkind"] == "f" and c["labels"] and c.get("newkind", "f") == "f" and rng.random() < 0.15:
                 self.add_inf(rng, c)
+            if c["op"] in ("like", "like2"):
+                # more shapes of template (drawn from a stream of their own, so that the main stream stays what it was):
+                # an axis the array does not have (before or after the shared ones), the shared axes listed in the other
+                # order, a dimension of the array with string labels listed as well (numpy.interp refuses it: TypeError)
+                r2 = random.Random(json.dumps(gen.clean(c), sort_keys=True))
+                if r2.random() < 0.3:
+                    c["tmpl_extra"] = r2.choice(["first", "last"])
+                if c["op"] == "like2" and r2.random() < 0.4:
+                    c["tmpl_rev"] = True
+                strs = [x["name"] for i, x in enumerate(arr["axes"]) if x["kind"] == "O" and i not in (d, c.get("_d2"))]
+                if strs and r2.random() < 0.12:
+                    c["tmpl_str"] = r2.choice(strs)
             yield c
 
     def add_inf(self, rng, c):
@@ -202,6 +221,47 @@ class C18(Prop):
         b.attrs.update(a.attrs)
         return b
 
+    @staticmethod
+    def ds_parts(c, a):
+        """the variables of the Dataset cases beside `a` itself ("full"): "other" lacks the axis, "line" is 1-D along it"""
+        name = a.dims[c["_d"]]
+        other = DimArray(np.array([1.0, 2.0]), axes=[Axis(np.array([0, 1]), "q")])
+        other.attrs["long_name"] = "O"
+        line = a
+        for dname in [x for x in a.dims if x != name]:
+            line = line.take(0, axis=dname, indexing="position")
+        line = line if isinstance(line, DimArray) else a
+        return name, other, line
+
+    def template_axes(self, c):
+        """the axes of the template of the interp_like cases, as `impl` builds them (name, dtype kind, labels)"""
+        axes = c["array"]["axes"]
+        t = [{"name": axes[c["_d"]]["name"], "kind": c.get("newkind", "f"), "labels": c["labels"]}]
+        unrelated = {"name": "unrelated", "kind": "f", "labels": [gen.enc(Fraction(v)) for v in (1, 2, 3)]}
+        if c["op"] == "like2":
+            t.append({"name": axes[c["_d2"]]["name"], "kind": "f", "labels": c["labels2"]})
+            if c.get("tmpl_rev"):
+                t.reverse()
+        if c.get("tmpl_str"):
+            t.append({"name": c["tmpl_str"], "kind": "f", "labels": [gen.enc(Fraction(1, 2))]})
+        if c["op"] == "dataset_like" or c.get("tmpl_extra") == "last":
+            # the template also carries an axis that the array / the Dataset does not have: nothing to do along it
+            t.append(unrelated)
+        elif c.get("tmpl_extra") == "first":
+            t.insert(0, unrelated)
+        return t
+
+    def lean_ds(self, c, toks):
+        """the Dataset of the Dataset cases as the driver reads it (`ds_op`): the cells of variable k are `src k i`"""
+        arr = gen.clean(c["array"])
+        full = core.lean_array(arr, toks)
+        other = core.lean_array({"axes": [{"name": "q", "kind": "i", "labels": [gen.enc(Fraction(0)), gen.enc(Fraction(1))]}],
+                                 "vkind": "f", "attrs_py": {"long_name": "O"}}, toks)
+        line = full
+        if len(arr["axes"]) > 1:
+            line = core.lean_array({"axes": [arr["axes"][c["_d"]]], "vkind": arr["vkind"], "attrs_py": arr.get("attrs_py", {})}, toks)
+        return {"keys": ["full", "other", "line"], "arrays": [full, other, line], "attrs": toks.enc({"title": "T"})}
+
     def impl(self, c):
         toks = core.AttrTokens()
         a = self.build(c)
@@ -223,7 +283,8 @@ class C18(Prop):
             kw["issorted"] = True
         axkw = {} if c["axis"][0] == "default" else {"axis": c["axis"][1]}
 
-        def template(axes):
+        def template(axes=None):
+            axes = [Axis(core.label_array(t["labels"], t["kind"]), t["name"]) for t in self.template_axes(c)]
             if c.get("tmpl") == "axes":
                 return Axes(axes)
             t = DimArray(np.zeros(tuple(ax.size for ax in axes)), axes=axes)
@@ -237,24 +298,16 @@ class C18(Prop):
                 if c["op"] == "like2":
                     n1, n2 = a.dims[c["_d"]], a.dims[c["_d2"]]
                     new2 = core.label_array(c["labels2"], "f")
-                    tmpl = template([Axis(plain, n1), Axis(new2, n2)])
-                    got = core.obs_array(a.interp_like(tmpl, **kw), toks)
+                    got = core.obs_array(a.interp_like(template(), **kw), toks)
                     # one axis after the other; the order is not part of the statement (it only matters where both
                     # coordinates are out of range and the fills differ): either order is accepted
                     got["_seq"] = core.obs_array(a.interp_axis(plain, axis=n1, **kw0).interp_axis(new2, axis=n2, **kw0), toks)
                     got["_seq2"] = core.obs_array(a.interp_axis(new2, axis=n2, **kw0).interp_axis(plain, axis=n1, **kw0), toks)
                     return got
                 if c["op"] == "like":
-                    name = a.dims[c["_d"]]
-                    return core.obs_array(a.interp_like(template([Axis(plain, name)]), **kw), toks)
+                    return core.obs_array(a.interp_like(template(), **kw), toks)
                 # Dataset: one variable with the axis, one without, one 1-D along it
-                name = a.dims[c["_d"]]
-                other = DimArray(np.array([1.0, 2.0]), axes=[Axis(np.array([0, 1]), "q")])
-                other.attrs["long_name"] = "O"
-                line = a
-                for dname in [x for x in a.dims if x != name]:
-                    line = line.take(0, axis=dname, indexing="position")
-                line = line if isinstance(line, DimArray) else a
+                name, other, line = self.ds_parts(c, a)
                 ds = Dataset({"full": a, "other": other, "line": line})
                 ds.attrs["title"] = "T"
                 if c["op"] == "dataset":
@@ -264,10 +317,11 @@ class C18(Prop):
                     r = ds.interp_axis(newv, axis=axd, **kw)
                 else:
                     # the template also carries an axis that the Dataset does not have: nothing to do along it
-                    r = ds.interp_like(template([Axis(plain, name), Axis(np.array([1.0, 2.0, 3.0]), "unrelated")]), **kw)
+                    r = ds.interp_like(template(), **kw)
                 out = {k: core.obs_array(r[k], toks) for k in r.keys()}
                 out["_keys"] = list(r.keys())
                 out["_attrs"] = dict(r.attrs)
+                out["_dims"] = list(r.dims)
                 out["_shared"] = all(any(ax is dax for dax in r.axes) for k in r.keys() for ax in r[k].axes)
                 # the per-variable definition, in the canonical spelling (ndarray coordinates, axis by name, no issorted)
                 out["_expect"] = {"full": core.obs_array(a.interp_axis(plain, axis=name, **kw0), toks),
@@ -284,9 +338,59 @@ class C18(Prop):
         toks = core.AttrTokens()
         # issorted=True on a sorted axis, lists / Axis objects as coordinates, a left-out axis and one-sided fills are other
         # spellings of what the mirror models
+        if c["op"] in ("like", "like2"):
+            # `Lib.interpLike`: the template is read through its axes (a DimArray or an Axes object)
+            return {"op": "transform", "fn": "interp_like", "arrays": [core.lean_array(gen.clean(c["array"]), toks)],
+                    "template": [core.lean_axis(t, None) for t in self.template_axes(c)]}
+        if c["op"] == "dataset_like":
+            # `DSV.interpLikeDs` (a template DimArray / Axes / Dataset is read through its axes)
+            return dict(self.lean_ds(c, toks), op="ds_op", fn="interp_like",
+                        template=[core.lean_axis(t, None) for t in self.template_axes(c)])
+        if c["op"] == "dataset":
+            # `DSV.interpAxisDs`: the axis by name (a position in the Dataset's dimensions is another spelling)
+            return dict(self.lean_ds(c, toks), op="ds_op", fn="interp_axis", dim=c["array"]["axes"][c["_d"]]["name"],
+                        labels=c["labels"], newkind=c.get("newkind", "f"))
         return {"op": "transform", "fn": "interp", "arrays": [core.lean_array(gen.clean(c["array"]), toks)],
                 "axis": ["pos", 0] if c["axis"][0] == "default" else c["axis"],
                 "labels": c["labels"], "newkind": c.get("newkind", "f")}
+
+    def lean_vs_impl_array(self, got, lo, env, tag):
+        """one array of the implementation against one array of the model: dims, shape, labels, values (the rounding
+        discipline of the plug-in), metadata"""
+        bad = []
+        if got["dims"] != lo["dims"] or got["shape"] != lo["shape"]:
+            return [tag + "dims"]
+        if [(x["name"], [lab_key(l) for l in x["labels"]]) for x in got["axes"]] != [(x["name"], [lab_key(l) for l in x["labels"]]) for x in lo["axes"]]:
+            bad.append(tag + "labels")
+        if [x["kind"] for x in got["axes"] if x["labels"]] != [x["kind"] for x in lo["axes"] if x["labels"]]:
+            bad.append(tag + "label_kind")
+        if [fl(cv(v)) for v in got["values"]] != [fl(env.ev(x)) for x in lo["cells"]]:
+            bad.append(tag + "values")
+        if sorted(map(tuple, got["attrs"] or [])) != sorted(map(tuple, lo["attrs"])):
+            bad.append(tag + "attrs")
+        return bad
+
+    def lean_vs_impl_ds(self, c, io, lean, a, left, right):
+        """correspondence for the Dataset cases: `DSV.interpAxisDs` / `DSV.interpLikeDs` against the implementation"""
+        if not isinstance(lean, dict) or ("ok" not in lean and "err" not in lean):
+            return ["M.no_answer"]
+        if "err" in io or "err" in lean:
+            if ("err" in io) != ("err" in lean):
+                return ["M.outcome"]
+            return [] if io["err"] == lean["err"] else ["M.errclass"]
+        o, lo = io["ok"], lean["ok"]
+        if sorted(o["_keys"]) != sorted(lo["keys"]):
+            return ["M.keys"]
+        bad = []
+        _, other, line = self.ds_parts(c, a)
+        env = InterpEnv([a.values, other.values, line.values], fill=left, fill2=right)
+        if o["_dims"] != lo["dims"]:
+            bad.append("M.dims")
+        if sorted(map(tuple, core.AttrTokens().enc(o["_attrs"]))) != sorted(map(tuple, lo["attrs"])):
+            bad.append("M.attrs")
+        for k in o["_keys"]:
+            bad += self.lean_vs_impl_array(o[k], lo["vars"][k], env, "M.%s." % k)
+        return bad
 
     def judge(self, c, io, ans):
         lean = ans["lib"]
@@ -309,11 +413,30 @@ class C18(Prop):
                 b1, b2 = cmp(io["ok"]["_seq"]), cmp(io["ok"]["_seq2"])
                 if b1 and b2:
                     prop_bad += b1
-            else:
+                # the 1-D definition applied twice: numpy.interp of every fibre along one shared axis, then along the other
+                d, d2 = c["_d"], c["_d2"]
+                ax, ax2 = c["array"]["axes"][d], c["array"]["axes"][d2]
+                w12 = np_interp_along(np_interp_along(a.values, d, ax["labels"], c["labels"], left, right), d2, ax2["labels"], c["labels2"], left, right)
+                w21 = np_interp_along(np_interp_along(a.values, d2, ax2["labels"], c["labels2"], left, right), d, ax["labels"], c["labels"], left, right)
+                gv = [fl(cv(v)) for v in got["values"]]
+                if gv != [fl(v) for v in w12.reshape(-1)] and gv != [fl(v) for v in w21.reshape(-1)]:
+                    prop_bad.append("values:numpy_interp")
+            elif not c.get("tmpl_str"):
                 prop_bad.append("outcome:" + io["err"])
             if io.get("operand_modified"):
                 prop_bad.append("operand_modified")
-            return None if not prop_bad else {"kind": "P", "differs": sorted(set(prop_bad)), "msg": io.get("msg")}
+            if not prop_bad:
+                # correspondence: `Lib.interpLike` (which fixes the order: the array's own axis order) against the implementation
+                if "err" in lean or "err" in io:
+                    if ("err" in lean) != ("err" in io):
+                        bad.append("M.outcome")
+                    elif lean["err"] != io["err"]:
+                        bad.append("M.errclass")
+                else:
+                    bad += self.lean_vs_impl_array(io["ok"], lean["ok"], InterpEnv([a.values], fill=left, fill2=right), "M.")
+            if not prop_bad and not bad:
+                return None
+            return {"kind": "P" if prop_bad else "M", "differs": sorted(set(prop_bad + bad)), "msg": io.get("msg")}
         if c["op"] in ("dataset", "dataset_like"):
             if "ok" in io:
                 o = io["ok"]
@@ -342,7 +465,11 @@ class C18(Prop):
                 prop_bad.append("outcome:" + io["err"])
             if io.get("operand_modified"):
                 prop_bad.append("operand_modified")
-            return None if not prop_bad else {"kind": "P", "differs": sorted(set(prop_bad)), "msg": io.get("msg")}
+            if not prop_bad:
+                bad = self.lean_vs_impl_ds(c, io, lean, a, left, right)
+            if not prop_bad and not bad:
+                return None
+            return {"kind": "P" if prop_bad else "M", "differs": sorted(set(prop_bad + bad)), "msg": io.get("msg")}
         if "ok" in lean:
             env = InterpEnv([a.values], fill=left, fill2=right)
             lo = core.lean_obs_to_canon(lean["ok"], env)
@@ -363,13 +490,7 @@ class C18(Prop):
             got = io["ok"]
             d = c["_d"]
             # the 1-D definition: numpy.interp of every fibre against the (sorted) labels
-            xs = np.array([float(Fraction(l[1], l[2])) for l in c["array"]["axes"][d]["labels"]])
-            order = np.argsort(xs, kind="stable")
-            newx = np.array([float(Fraction(l[1], l[2])) for l in c["labels"]])
-            vals = np.moveaxis(a.values.astype(float), d, -1)
-            flat = vals.reshape(-1, vals.shape[-1])
-            want = np.array([np.interp(newx, xs[order], row[order], left=left, right=right) for row in flat])
-            want = np.moveaxis(want.reshape(vals.shape[:-1] + (len(newx),)), -1, d)
+            want = np_interp_along(a.values, d, c["array"]["axes"][d]["labels"], c["labels"], left, right)
             if [fl(cv(v)) for v in got["values"]] != [fl(v) for v in want.reshape(-1)]:
                 prop_bad.append("values:numpy_interp")
             if got["dims"] != io["input"]["dims"]:
@@ -402,8 +523,12 @@ class C18(Prop):
         return {"outcome": "err:" + io["err"] if "err" in io else "ok", "op": c["op"], "rank": len(c["array"]["axes"]),
                 "order": ax.get("_order"), "nlab": len(ax["labels"]), "fills": fk, "vkind": c["array"]["vkind"],
                 "issorted": bool(c.get("issorted")), "valform": c.get("valform", "array"), "newkind": c.get("newkind", "f"),
-                "nnew": min(len(c["labels"]), 3), "tmpl": c.get("tmpl"), "ds_axis": c.get("ds_axis"), "inf": len(c["array"].get("inf_cells", [])),
-                "axis_form": k[0] if k[0] != "pos" else ("pos" if k[1] >= 0 else "negpos")}
+                "nnew": min(len(c["labels"]), 3), "tmpl": c.get("tmpl"), "tmpl_extra": c.get("tmpl_extra"), "tmpl_rev": bool(c.get("tmpl_rev")),
+                "tmpl_str": bool(c.get("tmpl_str")), "ds_axis": c.get("ds_axis"), "inf": len(c["array"].get("inf_cells", [])),
+                "axis_form": k[0] if k[0] != "pos" else ("pos" if k[1] >= 0 else "negpos"),
+                # every case reaches a mirror: interp -> Lib.interpAxis, like / like2 -> Lib.interpLike,
+                # dataset -> DSV.interpAxisDs, dataset_like -> DSV.interpLikeDs
+                "lean_compared:" + c["op"]: True}
 
     def size(self, c):
         return sum(len(a["labels"]) for a in c["array"]["axes"]) + len(c["labels"])
@@ -411,6 +536,17 @@ class C18(Prop):
     def snippet(self, c):
         return ("import sys; sys.path.insert(0, '/verif/harness'); import json, core; from props.c18 import PROP; "
                 "case = json.load(open(REPLAY))['case']; print(PROP.impl(case))")
+
+
+def np_interp_along(values, d, labels, newlabels, left, right):
+    """the 1-D definition: numpy.interp of every fibre along dimension `d` against the (sorted) labels"""
+    xs = np.array([float(Fraction(l[1], l[2])) for l in labels])
+    order = np.argsort(xs, kind="stable")
+    newx = np.array([float(Fraction(l[1], l[2])) for l in newlabels])
+    vals = np.moveaxis(np.asarray(values).astype(float), d, -1)
+    flat = vals.reshape(-1, vals.shape[-1])
+    want = np.array([np.interp(newx, xs[order], row[order], left=left, right=right) for row in flat])
+    return np.moveaxis(want.reshape(vals.shape[:-1] + (len(newx),)), -1, d)
 
 
 def is_sorted(ax):
